@@ -3,7 +3,7 @@ CLAIMED["C18"] = dict(
     note="binary.ByteOrder accessors are modelled by their arithmetic definition; copy() of constant length is unrolled. See evidence trusted_base for havocked calls.",
 )
 CLAIMED["C01"] = dict(
-    text="Postcondition chain: every accepting return of verify.CheckCertificate / EndorsementProto / Endorsement / the SNP validator closure implies authentic(payload, signature, caller roots, caller time) — chain check of the embedded certificate against the caller's pool at the caller's time and RSA-PSS/SHA-256 signature over exactly the stored payload bytes — proved for all inputs from the real SSA, with crypto/x509 represented by assumed contracts.",
+    text="Postcondition chain: every accepting return of verify.CheckCertificate / EndorsementProto / Endorsement / the SNP validator closure / gcetcbendorsement.TdxValidate implies authentic(payload, signature, caller roots, caller time) — chain check of the embedded certificate against the caller's pool at the caller's time and RSA-PSS/SHA-256 signature over exactly the stored payload bytes — proved for all inputs from the real SSA, with crypto/x509 represented by assumed contracts; SevValidate is proved to register the validator built from the caller's roots, time and endorsement as a *required* certificate-table entry (precondition of the assumed go-sev-guest contract).",
     note="Assumed: crypto/x509 ParseCertificate/Verify/CheckSignature contracts (/verif/stubs/x509.spec), protobuf Unmarshal model (deterministic decode), HTTPSGetter. The RSA/X.509 mathematics is not verified.",
 )
 CLAIMED["C02"] = dict(
@@ -13,4 +13,8 @@ CLAIMED["C02"] = dict(
 CLAIMED["C09"] = dict(
     text="Frame conditions: the validator constructor, the validator closure and everything they call (EndorsementProto, Endorsement, SNP, CheckCertificate) are proved to write only memory allocated during the call (every store and every callee's assigns set is checked against the entry watermark), so concurrent or successive invocations share only read-only state; data-race freedom then gives each call its isolated result.",
     note="The step from 'no shared writes' to 'same result under every interleaving' is a meta-argument (DRF => SC), not machine-checked. Library objects (CertPool, Getter, protobuf runtime) are assumed safe for concurrent use.",
+)
+CLAIMED["C17"] = dict(
+    text="SevPolicy/TdxPolicy and their helpers are proved, for all base policies, endorsements and options, to write only freshly allocated memory (the base policy is untouched), to preserve every set base value or fail (guest policy, measurement, minimum SVN, MRTD allow-list), to place exactly the endorsement's measurement / policy / CA-bundle PEM blocks in the result, and to carry the unrelated scalar and bytes fields of the base over unchanged.",
+    note="proto.Clone is modelled as a fresh deep copy (depth 3); pem.Decode by an uninterpreted deterministic function; element-wise equality of the repeated trusted-key fields after SevPolicy is proved at modifyPolicy level only (listed as not covered at SevPolicy level).",
 )
